@@ -101,6 +101,15 @@ struct Gen {
     if (r < 26) return "HTTP/1.1"; if (r < 31) return "HTTP/1.0";
     return ODD[s.below(sizeof ODD / sizeof *ODD)];
   }
+  // one continuation line of an obs-fold (RFC 9112 5.2: obs-fold = OWS CRLF RWS): leading SP / HTAB run, then content that may be
+  // empty (a line of whitespace only -- still a continuation, never the empty line that ends the section), carry trailing
+  // whitespace, or look like a field line / framing field / request line (it stays part of the previous field's value)
+  std::string fold_line() {
+    static const char *LW[] = {" ", "\t", "  ", " \t", "\t "};
+    static const char *C[] = {"b", "", "", "b c", "X-F: v", "", "Content-Length: 7", "GET /f HTTP/1.1", ":", "Transfer-Encoding: chunked", "b:", "a\tb"};
+    static const char *TW[] = {"", "", " ", "\t", " \t "};
+    std::string l = LW[s.below(5)]; l += C[s.below(12)]; l += TW[s.below(5)]; return l;
+  }
   std::string header(const std::string &eol) {
     static const char *N[] = {"X-A", "Accept", "User-Agent", "x-b", "X-A", "X|A~"};
     static const char *V[] = {"v", "*/*", "a b", "a,b", "\x80\xff", "v1", "a\tb"};
@@ -111,7 +120,11 @@ struct Gen {
     if (r < 32) { std::string l = LW[s.below(5)]; if (l.find('\t') != std::string::npos && avoid(K_HTAB)) l = " "; return n + ":" + l + v + LW[s.below(5)]; }
     switch (r) {
       case 32: case 33: return s.flag() ? "X-E:" : "X-E: ";
-      case 34: case 35: case 36: return n + ": a" + eol + (s.flag() ? " " : "\t") + "b";
+      case 34: case 35: case 36: {   // obs-fold: 1-3 continuation lines on a field whose first line holds a value, trailing OWS or nothing
+        static const char *F[] = {": a", ": a", ":", ": ", ": a \t", ":a"};
+        std::string l = n + F[s.below(6)]; int k = s.chance(1, 4) ? 2 + (int)s.below(2) : 1;
+        for (int i = 0; i < k; i++) l += eol + fold_line();
+        return l; }
       case 37: case 38: if (avoid(K_WSCOLON)) return n + ": " + v; return n + (s.flag() ? " : " : "\t: ") + v;
       case 39: return "garbage-without-colon";
       case 40: return s.flag() ? std::string("X-N: a\0b", 8) : std::string("X-C: a\rb");
@@ -147,6 +160,8 @@ struct Gen {
     b += sizeline(0, true);
     uint32_t t = s.below(16);
     if (t == 1 || t == 4) b += "X-T: v" + eol; else if (t == 2 || t == 5) b += "X-T: v" + eol + "Content-Length: 3" + eol; else if (t == 3) { static const char *X[] = {" folded", "no-colon", "X-T : v", "Transfer-Encoding: chunked"}; b += std::string(X[s.below(4)]) + eol; }
+    else if (t == 6 || t == 7) {   // obs-fold inside the trailer section, optionally with a further trailer field behind it
+      b += "X-T: v" + eol + fold_line() + eol; if (s.flag()) b += fold_line() + eol; if (t == 7) b += "X-U: w" + eol; }
     b += eol;
     return b;
   }
@@ -208,6 +223,10 @@ struct Gen {
       body = chunked_body(eol); fl.push_back("Transfer-Encoding: chunked"); fl.push_back("Content-Length: " + std::to_string(s.flag() ? body.size() : s.below(8))); if (s.flag()) std::swap(fl[0], fl[1]);
     }
     for (auto &f : fl) { size_t at = s.below((uint32_t)lines.size() + 1); lines.insert(lines.begin() + at, f); }
+    // continuation lines at any position of the finished header section: behind framing fields, Host, other folds, as the last line
+    // before the empty line, and (rarely) in front of the first field
+    if (s.chance(1, 10)) { int k = 1 + (int)s.below(2);
+      for (int i = 0; i < k; i++) { size_t at = lines.empty() ? 0 : 1 + s.below((uint32_t)lines.size()); if (s.chance(1, 16)) at = 0; lines.insert(lines.begin() + at, fold_line()); } }
     for (auto &l : lines) out += l + eol;
     out += eol; out += body;
   }
@@ -403,12 +422,15 @@ extern "C" int LLVMFuzzerTestOneInput(const uint8_t *data, size_t size) {
   uint32_t feats = 0; for (auto &mm : R.msgs) feats |= mm.features;
   static const struct { uint32_t f; const char *n; } FN[] = {{h9112::F_CHUNK_EXT, "chunk_ext"}, {h9112::F_HTAB_OWS, "htab_ows"}, {h9112::F_TE_LIST, "te_list"}, {h9112::F_TE_CL, "te_and_cl"},
     {h9112::F_CL_REPEAT, "cl_repeat"}, {h9112::F_FOLD, "obs_fold"}, {h9112::F_EXPECT_OTHER, "expect_other"}, {h9112::F_EXPECT_CONTINUE, "expect_continue"}, {h9112::F_TRAILERS, "trailers"},
-    {h9112::F_CHUNKED, "chunked"}, {h9112::F_CL, "content_length"}, {h9112::F_CLOSE, "conn_close"}, {h9112::F_HTTP10, "http10"}, {h9112::F_ABS_FORM, "absolute_form"}, {h9112::F_DUP_FIELD, "dup_field"}};
+    {h9112::F_CHUNKED, "chunked"}, {h9112::F_CL, "content_length"}, {h9112::F_CLOSE, "conn_close"}, {h9112::F_HTTP10, "http10"}, {h9112::F_ABS_FORM, "absolute_form"}, {h9112::F_DUP_FIELD, "dup_field"},
+    {h9112::F_FOLD_EMPTY, "fold_whitespace_only_line"}, {h9112::F_FOLD_MULTI, "fold_multi_line"}, {h9112::F_TRAILER_FOLD, "trailer_fold"}, {h9112::F_FOLD_FIELDLIKE, "fold_fieldlike"}};
   for (auto &f : FN) if (feats & f.f) verif_class(f.n);
   if (n >= 2) verif_class("pipelined>=2"); if (m >= 2) verif_class("delivered>=2"); if (m >= 1) verif_class("delivered>=1");
+  for (size_t i = 0; i < n && i < m; i++) { if (R.msgs[i].features & h9112::F_FOLD_EMPTY) { verif_class("fold_whitespace_only_line_delivered"); break; } }
+  for (size_t i = 0; i < n && i < m; i++) { if (R.msgs[i].features & h9112::F_TRAILER_FOLD) { verif_class("trailer_fold_delivered"); break; } }
   if (o.interim100) verif_class("100-continue-sent"); if (raw) verif_class("raw_mode");
   verif_class_n("segments_written", total_segments);
-  bool rich = n >= 2 || (feats & (h9112::F_CHUNKED | h9112::F_EXPECT_CONTINUE | h9112::F_FOLD));
+  bool rich = n >= 2 || (feats & (h9112::F_CHUNKED | h9112::F_EXPECT_CONTINUE | h9112::F_FOLD | h9112::F_TRAILER_FOLD));
   int nontrivial = rich && m >= 1 && inside_splits >= 2;
   verif_case_end(nontrivial, s.h);
   return 0;
